@@ -206,6 +206,22 @@ PROPS["C18"] = {
 }
 
 
+ENGINES.append({"name": "vsched", "path": "vsched/rt.cpp", "serves_properties": ["C09", "C10", "C11", "C14"], "kind_free_text": "deterministic user-level scheduler: libnstd compiled with -fsanitize=thread call-backs implemented by vsched/rt.cpp, pthread/semaphore/clock interposed with -Wl,--wrap; schedules, spurious wake-ups and timeouts are generated inputs; virtual time; deadlock verdicts"})
+
+PROPS["C09"] = {
+    "level": "exploration",
+    "engine": "opfuzz + vsched",
+    "level_text": "(handles) random single-threaded histories of copy / assign (incl. self) / swap / modify / destroy over String, Variant, Xml::Variant and RefCount::Ptr handles against a value model under ASan and the allocation ledger; (threads) 2-4 logical threads, each owning its handles to a common payload, run generated programs under sampled schedules of the deterministic scheduler (uniform, few preemptions, PCT, round robin), with decision points at every atomic / volatile access; a quarantining ledger reports double release, write after release and leaks exactly",
+    "level_note": "trusted: vsched/rt.cpp (sequentially consistent interleaving at instrumented granularity: atomics, volatile accesses, synchronisation calls), the ledger in engine/pbt.hpp, thread-local value models; weak-memory reorderings are out of reach; schedules are sampled, not enumerated",
+    "technique": "stateful property-based testing (single thread) plus randomised deterministic scheduling of generated thread programs (schedule = generated input)",
+    "rule": "threads: case = kind of handle (String, Variant string, Variant list, RefCount::Ptr, Xml::Variant), 2-4 threads, per-thread op lists over 3 handle slots (copy, destroy, assign, modify, read), 12 schedules per case (60 when replaying). Oracle: every handle always reads the value its own thread gave it, objects are destroyed exactly once, no double free / write after free / leak, no deadlock. "
+            "Non-trivial(threads) = some schedule of the case had two consecutive operations on the same reference counter by different threads. handles: 5 handle slots of one kind, ops make / copy / assign (incl. self) / swap (Variant::swap, Ptr::swap) / modify / destroy / raw pointer assignment; every handle reads its model value after every op, RefCount objects are destroyed exactly when their last handle goes; non-trivial(handles) = a swap or assignment between handles of different payloads followed by a destruction; distinct by case text hash.",
+    "assumptions": ["each handle is used by one thread only (the statement's proviso)", "sequential consistency"],
+    "parts": [opf("handles", ["harness/c09_handles.cpp"], {"cases": 300000, "maxsize": 30}, {"cases": 3000000, "maxsize": 60, "workers": 16}),
+              opf("threads", ["harness/c09_threads.cpp"], {"cases": 5000, "maxsize": 14}, {"cases": 80000, "maxsize": 24, "workers": 16}, flavour="sched", deps=["harness/vs_common.hpp"])],
+}
+
+
 # property modules kept in separate files (props_cXX.py define PROPS["CXX"] using the helpers above)
 import glob as _glob, os as _os
 for _f in sorted(_glob.glob(_os.path.join(_os.path.dirname(_os.path.abspath(__file__)), "props_c*.py"))):
